@@ -17,7 +17,14 @@ NX_RANDOM = {"networkx.gnp_random_graph", "networkx.gnm_random_graph", "networkx
 FOREIGN_RNG = ("random.Random", "random.SystemRandom", "SystemRandom", "numpy.random", "np.random", "os.urandom", "uuid.uuid", "secrets.")
 AMBIENT = {"id": "object address", "hash": "hash value (randomised per process for str)", "time.time": "clock", "time.perf_counter": "clock",
            "datetime.now": "clock", "datetime.datetime.now": "clock", "os.getcwd": "working directory", "os.getpid": "process id",
-           "os.getenv": "environment", "os.environ.get": "environment", "socket.gethostname": "host name", "getpass.getuser": "user name"}
+           "os.getenv": "environment", "os.environ.get": "environment", "socket.gethostname": "host name", "getpass.getuser": "user name",
+           "os.path.abspath": "working directory (absolute form of a relative path)", "os.path.realpath": "working directory / links",
+           "os.path.expanduser": "home directory of the user", "os.path.expandvars": "environment", "os.uname": "host",
+           "platform.node": "host name", "os.times": "clock", "time.monotonic": "clock", "time.process_time": "clock",
+           "uuid.uuid4": "random identifier", "uuid.uuid1": "host and clock", "os.urandom": "operating system entropy",
+           "random.SystemRandom": "operating system entropy", "secrets.token_hex": "operating system entropy", "tempfile.mktemp": "temporary name",
+           "Path.cwd": "working directory", "pathlib.Path.cwd": "working directory", "Path.home": "home directory", "os.stat": "file metadata",
+           "os.path.getmtime": "file modification time", "os.listdir": "directory order", "glob.glob": "directory order"}
 # ambient reads that do not reach a formula or its header (one line of reason each)
 AMBIENT_OK = {
     ("cnfgen.clitools.cmdline", "paginate_or_redirect_stdout"): "pager selection for --help / tutorial text only",
@@ -52,6 +59,10 @@ def run(prog, tier):
     check_ambient(R, prog, res)
     check_obj_repr(R, prog)
     check_hash_order(R, prog)
+    # a table that survives from one call to the next makes the second call with the same seed differ from the first
+    from ._shared import check_no_shared_state
+    check_no_shared_state(R, prog, P, ['cnfgen.families', 'cnfgen.transformations', 'cnfgen.graphs', 'cnfgen.formula', 'cnfgen.clitools.graph_build',
+                                       'cnfgen.clitools.graph_args', 'cnfgen.clihelpers'], 300)
     return R
 
 
@@ -298,6 +309,8 @@ def check_ambient(R, prog, res):
                 what = "external process"
             if what is None:
                 continue
+            if nm.startswith("os.path.") and c.args and "__file__" in src(c.args[0]):
+                continue        # the location of the package itself, whatever the working directory
             n += 1
             key = (fi.module.name, fi.qualname)
             inst = "%s: %s (%s)" % (fi.qualname, nm, what)
@@ -378,6 +391,15 @@ def check_hash_order(R, prog):
                 if isinstance(v, ast.List) and v.elts and all(isinstance(e, (ast.Set, ast.SetComp)) or
                                                                 (isinstance(e, ast.Call) and call_name(e) in ("set", "frozenset")) for e in v.elts):
                     setlists.add(s.targets[0].id)
+                if isinstance(v, ast.Call) and method_name(v) in ("union", "intersection", "difference", "symmetric_difference") and \
+                        isinstance(v.func.value, ast.Call) and call_name(v.func.value) in ("set", "frozenset"):
+                    sets.add(s.targets[0].id)
+            if isinstance(s, ast.Assign) and len(s.targets) == 1 and isinstance(s.targets[0], ast.Subscript) and isinstance(s.targets[0].value, ast.Name):
+                v = s.value
+                base = v.func.value if isinstance(v, ast.Call) and method_name(v) in ("union", "intersection", "difference", "symmetric_difference") else v
+                if isinstance(base, (ast.Set, ast.SetComp)) or (isinstance(base, ast.Call) and call_name(base) in ("set", "frozenset")) or \
+                        (isinstance(base, ast.Name) and base.id in sets):
+                    setlists.add(s.targets[0].value.id)          # a slot of this container holds a set from here on
         def is_set(e):
             if isinstance(e, ast.Name) and e.id in sets:
                 return True
